@@ -34,6 +34,8 @@ VERSIONS = G.VERSIONS
 SPEC_OK = 'ElementPathError-or-value'
 CALL_TIMEOUT = 5.0            # seconds per guarded call (in-process alarm)
 KILL_TIMEOUT = 12.0           # seconds before the parent kills a silent worker
+MAX_HANGS = 24                # after that many hanging inputs the rest of an exploration batch is skipped
+_INPROC_HANGS = [0]
 
 
 def parser_class(v: str):
@@ -288,11 +290,18 @@ class Worker:
 def explore_many(cases: list[dict], nworkers: int = 4) -> list[dict]:
     results: list = [None] * len(cases)
 
+    hangs = [0]
+
     def work(k: int):
         w = Worker()
         try:
             for i in range(k, len(cases), nworkers):
+                if hangs[0] >= MAX_HANGS:      # verdict is already certain; do not spend 5 s on each further hang
+                    results[i] = dict(cases[i], steps=[])
+                    continue
                 results[i] = w.ask(cases[i])
+                if any(st[1] == 'ERR:OTHER:Hang' for st in results[i]['steps']):
+                    hangs[0] += 1
         finally:
             w.close()
 
@@ -522,8 +531,14 @@ def h8(s: str) -> str:
 
 
 def in_process_guard(fn):
-    """guarded() for calls made in the main process (histories, lexer, taxonomy)"""
-    return guarded(fn)
+    """guarded() for calls made in the main process (histories, lexer, taxonomy); after several hangs
+    further calls are answered `ERR:OTHER:Hang-skipped` at once (the verdict is certain by then)"""
+    if _INPROC_HANGS[0] >= 8:
+        return 'ERR:OTHER:Hang', 'skipped-after-8-hangs', None
+    r = guarded(fn)
+    if r[0] == 'ERR:OTHER:Hang':
+        _INPROC_HANGS[0] += 1
+    return r
 
 
 # --------------------------------------------------------------------------------------
@@ -540,6 +555,9 @@ HISTORY_CORPUS = [
     ('2.0', ['1 + "a"', '1 + 1', 'xs:int("x")', 'xs:int("1")', b'ab', None, 'b']),
     ('3.1', ['map{', 'map{1:2}', '[1', '[1]', 'Q{', 'Q{u}a', '1 => abs(', 'abs(1)']),
 ]
+
+
+HISTORY_ESCAPES: list = []     # (version, source, outcome, site) of non-ElementPathError outcomes seen in histories
 
 
 def outcome_text(out: str, val, exc_msg: str | None) -> str:
@@ -564,7 +582,9 @@ def parse_observed(p, src):
             holder['msg'] = _re.sub(r' at 0x[0-9a-fA-F]+', '', str(e.message))   # repr() of objects: addresses
             raise
 
-    out, _site, tok = in_process_guard(call)
+    out, site, tok = in_process_guard(call)
+    if out.startswith(('ERR:OTHER', 'ERR:NOCODE')) and isinstance(src, str) and not site.startswith('skipped'):
+        HISTORY_ESCAPES.append((getattr(p, 'version', '?'), src, out, site))
     return outcome_text(out, tok, holder.get('msg')), tok
 
 
@@ -683,10 +703,22 @@ def correspond_histories(run: Run, n: int) -> None:
                                                             for c in calls]})
     answers = run.driver('C03', lines)
     st = run.stats
+    # an escape (foreign exception, hang) seen during a history is judged like one of the exploration stream
+    esc = sorted(set(HISTORY_ESCAPES))
+    del HISTORY_ESCAPES[:]
+    if esc:
+        xs = run.driver('C03', [trigger_line(v, s, out, site) for v, s, out, site in esc])
+        for (v, s, out, site), ans in zip(esc, xs):
+            tag = ans[len('inK='):] if ans.startswith('inK=') else '-'
+            st.count('history:escape:' + out.split(':')[-1] + ('' if tag == '-' else f'[{tag}]'))
+            run.disagree(Disagreement({'kind': 'explore', 'v': v, 's': s, 'c': 'doc', 'step': 'parse'}, out, None,
+                                      SPEC_OK, what='escape', site=site, tags=[] if tag == '-' else [tag]))
     for case, impl, ans in zip(cases, impls, answers):
         if not ans.startswith('model='):
             run.disagree(Disagreement(case, 'driver:' + ans, what='protocol'))
             continue
+        if 'ERR-OTHER-Hang' in impl:
+            continue     # reported above as an escape; cursor comparison after a watchdog abort is meaningless
         model, spec = ans[len('model='):].split(' spec=')
         fails = impl.count('ERR-')
         st.case(case, nontrivial=0 < fails < len(case['calls']))
